@@ -9,9 +9,9 @@ import engine as E
 VERIF = E.VERIF
 UNIT_TOOL = {"field": "field", "strip": "parser", "valueops": "ps", "degree": "ps"}
 # engine name -> (tool dir, argument prefix)
-ENGINES = {"field": ("field", ["bounded"]), "parser": ("parser", ["bounded"]), "valueops": ("ps", ["bounded", "valueops"]), "degree": ("ps", ["bounded", "degree"]), "degree_expr": ("ps", ["bounded", "degree_expr"]), "dom": ("ps", ["bounded", "dom"]), "cfg": ("parser", ["bounded-cfg"]), "timebox": ("parser", ["bounded-timebox"]), "ssa": ("parser", ["bounded-ssa"]), "paths": ("parser", ["bounded-paths"]), "value_expr": ("ps", ["bounded", "value_expr"]), "e2e-tuples": ("py", ["tuples"]), "e2e-output": ("py", ["output"]), "e2e-values": ("py", ["values"]), "e2e-curves": ("py", ["curves"]), "e2e-includes": ("py", ["includes"]), "e2e-totality": ("py", ["totality"]), "e2e-positions": ("py", ["positions"]), "e2e-sigassign": ("py", ["sigassign"]), "e2e-scopes": ("py", ["scopes"]), "e2e-determinism": ("py", ["determinism"]), "e2e-failures": ("py", ["failures"]), "e2e-deadvalues": ("py", ["deadvalues"]), "e2e-degrees": ("py", ["degrees"]), "e2e-values-random": ("py", ["values-random"])}
+ENGINES = {"field": ("field", ["bounded"]), "parser": ("parser", ["bounded"]), "valueops": ("ps", ["bounded", "valueops"]), "degree": ("ps", ["bounded", "degree"]), "degree_expr": ("ps", ["bounded", "degree_expr"]), "dom": ("ps", ["bounded", "dom"]), "cfg": ("parser", ["bounded-cfg"]), "timebox": ("parser", ["bounded-timebox"]), "ssa": ("parser", ["bounded-ssa"]), "paths": ("parser", ["bounded-paths"]), "value_expr": ("ps", ["bounded", "value_expr"]), "e2e-tuples": ("py", ["tuples"]), "e2e-output": ("py", ["output"]), "e2e-values": ("py", ["values"]), "e2e-curves": ("py", ["curves"]), "e2e-includes": ("py", ["includes"]), "e2e-totality": ("py", ["totality"]), "e2e-positions": ("py", ["positions"]), "e2e-sigassign": ("py", ["sigassign"]), "e2e-scopes": ("py", ["scopes"]), "e2e-determinism": ("py", ["determinism"]), "e2e-failures": ("py", ["failures"]), "e2e-deadvalues": ("py", ["deadvalues"]), "e2e-degrees": ("py", ["degrees"]), "e2e-values-random": ("py", ["values-random"]), "e2e-timeboxreal": ("py", ["timeboxreal"])}
 UNIT_ENGINE = {"field": "field", "strip": "parser", "valueops": "valueops", "degree": "degree", "dom": "dom"}           # unit -> tools/replay/<dir>
-PROP_BOUNDED = {"C16": ["field"], "C01": ["field", "parser", "e2e-tuples", "e2e-values", "e2e-totality"], "C05": ["parser"], "C04": ["parser", "e2e-positions"], "C06": ["valueops", "value_expr", "e2e-values", "e2e-values-random", "timebox"], "C07": ["degree", "degree_expr", "timebox", "e2e-degrees"], "C15": ["dom"], "C12": ["cfg"], "C18": ["e2e-tuples", "e2e-totality"], "C03": ["e2e-output"], "C11": ["e2e-curves"], "C20": ["timebox"], "C19": ["e2e-includes"], "C08": ["e2e-sigassign"], "C10": ["e2e-scopes"], "C14": ["ssa", "e2e-scopes"], "C13": ["paths"], "C17": ["e2e-determinism"], "C02": ["e2e-failures"], "C09": ["e2e-deadvalues"]}
+PROP_BOUNDED = {"C16": ["field"], "C01": ["field", "parser", "e2e-tuples", "e2e-values", "e2e-totality"], "C05": ["parser"], "C04": ["parser", "e2e-positions"], "C06": ["valueops", "value_expr", "e2e-values", "e2e-values-random", "timebox"], "C07": ["degree", "degree_expr", "timebox", "e2e-degrees"], "C15": ["dom"], "C12": ["cfg"], "C18": ["e2e-tuples", "e2e-totality"], "C03": ["e2e-output"], "C11": ["e2e-curves"], "C20": ["timebox", "e2e-timeboxreal"], "C19": ["e2e-includes"], "C08": ["e2e-sigassign"], "C10": ["e2e-scopes"], "C14": ["ssa", "e2e-scopes"], "C13": ["paths"], "C17": ["e2e-determinism"], "C02": ["e2e-failures"], "C09": ["e2e-deadvalues"]}
 
 
 def _build(tool):
